@@ -8,9 +8,12 @@ package c11
 // [1]byte whose input contains a 0x00 element) cannot be interrupted inside a Go process, so the
 // worker reports the case ("runaway"), exits, and the parent starts the shard again behind that case.
 // Culprits that produce runaways repeatedly are quarantined (greedy hitting set over the candidate
-// keys of the runaway cases, threshold 3): later cases containing them are skipped, counted, and the
-// run is marked not exhaustive. The verdict "allocation since the case started exceeded N bytes" is an
-// allocation-counter oracle, not a timing oracle.
+// keys of the runaway cases, threshold 3; a lattice value that also occurs in a case that returned is
+// not eligible): later cases containing them are skipped, counted, and the run is marked not
+// exhaustive. The verdict "the case is still running and has allocated more than N bytes" uses exact
+// allocation counters (runtime.ReadMemStats), it is not a timing oracle. A worker that dies of a fatal
+// runtime error (out of memory under the address-space cap, stack exhaustion) is started again with a
+// per-case write-ahead log for the unit it died in; the case that kills it becomes a violation.
 
 import (
 	"bytes"
@@ -379,7 +382,7 @@ func buildPlant(thorough bool, only func(string) bool) *plant {
 			per := len(tgts) + 1
 			for idx := lo; idx < lo+block && idx < sp.total; idx++ {
 				b := append([]byte{}, sp.at(idx, buf)...)
-				runStringCase(w, "bytes", "bytes-to-typed", b, tgts, int(idx-lo)*per, from, "")
+				runStringCase(w, "bytes", "bytes-to-typed", b, tgts, int(idx-lo)*per, from, "", len(b) < maxLen)
 			}
 		}})
 	}
@@ -394,7 +397,7 @@ func buildPlant(thorough bool, only func(string) bool) *plant {
 		add(unit{phase: "family", limit: limitLarge, run: func(w *worker, from int) {
 			per := len(tgts) + 1
 			for i := lo; i < lo+4 && i < len(fam); i++ {
-				runStringCase(w, "family", "family-to-typed", fam[i].build(), tgts, (i-lo)*per, from, "family/")
+				runStringCase(w, "family", "family-to-typed", fam[i].build(), tgts, (i-lo)*per, from, "family/", true)
 			}
 		}})
 	}
@@ -474,7 +477,7 @@ func buildPlant(thorough bool, only func(string) bool) *plant {
 						w.mark(w.pos, cc)
 					}
 					_, re := refrlp.Decode(b)
-					w.targetCase("bytes-to-pair", tg, b, re, "pair")
+					w.targetCase("bytes-to-pair", tg, b, re, "pair", true)
 				}
 			}})
 		}
@@ -554,7 +557,7 @@ func buildPlant(thorough bool, only func(string) bool) *plant {
 
 // runStringCase: the untyped check of b and the decoding of b into every target. Sub-case numbering:
 // base+0 is the untyped check, base+1+j target j.
-func runStringCase(w *worker, scenario, tscenario string, b []byte, tgts []*target, base, from int, classPrefix string) {
+func runStringCase(w *worker, scenario, tscenario string, b []byte, tgts []*target, base, from int, classPrefix string, stream bool) {
 	if base >= from {
 		w.begin(base, nil, func() (string, string, map[string]interface{}) {
 			return scenario, "untyped", map[string]interface{}{"kind": "untyped", "input": hex.EncodeToString(b)}
@@ -567,8 +570,12 @@ func runStringCase(w *worker, scenario, tscenario string, b []byte, tgts []*targ
 	}
 	_, refErr := refrlp.Decode(b)
 	unitLimit := w.limit.Load()
-	defer w.limit.Store(unitLimit)
+	defer func() {
+		w.limit.Store(unitLimit)
+		w.seq.Add(1) // a new limit needs a new base
+	}()
 	if tl := uint64(limitSmall + 512*len(b)); tl < unitLimit {
+		w.seq.Add(1)      // new base first, then the lower limit
 		w.limit.Store(tl) // one decoding and one encoding per target
 	}
 	// one announcement for all targets of this string; the watchdog reads the current target from w.sub
@@ -596,7 +603,7 @@ func runStringCase(w *worker, scenario, tscenario string, b []byte, tgts []*targ
 		if w.careful {
 			w.mark(w.pos, cc)
 		}
-		w.targetCase(tscenario, tg, b, refErr, "")
+		w.targetCase(tscenario, tg, b, refErr, "", stream)
 	}
 }
 
@@ -614,8 +621,8 @@ func (w *worker) quarTarget(tg *target) bool {
 }
 
 // targetCase is checkTarget with a fast path for the common outcome (the decoder rejects the input).
-func (w *worker) targetCase(scenario string, tg *target, b []byte, refErr error, classPrefix string) {
-	if rejectsQuietly(tg, b) {
+func (w *worker) targetCase(scenario string, tg *target, b []byte, refErr error, classPrefix string, stream bool) {
+	if rejectsQuietly(tg, b, stream) {
 		w.a.evals++
 		if !tg.seenReject {
 			tg.seenReject = true
@@ -624,7 +631,7 @@ func (w *worker) targetCase(scenario string, tg *target, b []byte, refErr error,
 		return
 	}
 	w.a.do(func() outcome {
-		o := checkTarget(scenario, tg, b, refErr)
+		o := checkTarget(scenario, tg, b, refErr, stream)
 		if o.class != "" {
 			o.class = classPrefix + o.class
 		}
@@ -632,13 +639,16 @@ func (w *worker) targetCase(scenario string, tg *target, b []byte, refErr error,
 	})
 }
 
-func rejectsQuietly(tg *target, b []byte) (rejected bool) {
+func rejectsQuietly(tg *target, b []byte, stream bool) (rejected bool) {
 	defer func() {
 		if recover() != nil {
 			rejected = false // the slow path reports the panic
 		}
 	}()
-	return rlp.DecodeBytes(b, reflect.New(tg.typ).Interface()) != nil
+	if rlp.DecodeBytes(b, reflect.New(tg.typ).Interface()) == nil {
+		return false
+	}
+	return !stream || rlp.NewStream(bytes.NewReader(b), 0).Decode(reflect.New(tg.typ).Interface()) != nil
 }
 
 // ---- worker process ----------------------------------------------------------------------------------------
@@ -823,8 +833,16 @@ func hittingSet(recs []runawayRec, threshold int, clean map[string]bool) map[str
 
 func TestCheck(t *testing.T) {
 	log.Root().SetHandler(log.DiscardHandler())
-	runtime.GOMAXPROCS(4)
-	debug.SetGCPercent(1600) // workers keep a few MB live and allocate gigabytes of short-lived values
+	procs := 3
+	if v, err := strconv.Atoi(os.Getenv("VERIF_C11_PROCS")); err == nil && v > 0 {
+		procs = v
+	}
+	runtime.GOMAXPROCS(procs)
+	gcPercent := 400 // workers keep a few MB live and allocate gigabytes of short-lived values
+	if v, err := strconv.Atoi(os.Getenv("VERIF_C11_GOGC")); err == nil {
+		gcPercent = v
+	}
+	debug.SetGCPercent(gcPercent)
 	run := ev.Start("exploration")
 	if err := refrlp.SelfTest(); err != nil {
 		ev.Broken("refrlp self test: %v", err)
@@ -846,6 +864,7 @@ func TestCheck(t *testing.T) {
 	run.Assume("streams are created with a known input length (bytes.Reader or explicit limit); unlimited readers are documented as unbounded")
 	run.Assume("nil pointers without rlp:\"nil\" are documented to encode as the zero/empty value; they are compared after that normalisation, and nil pointers to non-empty byte arrays / structs (whose empty encoding the decoder rejects) are not in the lattice")
 	run.Assume("RawValue targets are documented not to validate content; for them only 'error or byte-identical' is required")
+	run.Assume("typed targets: DecodeBytes for every enumerated string; Stream.Decode additionally for strings shorter than the length bound, the long-form family and the pair targets")
 	run.Assume(fmt.Sprintf("allocation bound: TotalAlloc delta <= %d + %d*len(input) per decoding call, measured on a single goroutine; a case whose allocation exceeds %d MiB (small inputs) is reported as unbounded and not waited for", allocBase, allocPerByte, limitTiny>>20))
 	col := &collector{run: run, perGroup: map[string]int{}, seen: map[string]bool{}}
 
@@ -864,7 +883,7 @@ func TestCheck(t *testing.T) {
 	}
 	run.Set("alphabet", hex.EncodeToString(alphabet))
 	run.Set("units", len(p.units))
-	deadline := run.Deadline(150*time.Second, 25*time.Minute)
+	deadline := run.Deadline(150*time.Second, 13*time.Minute)
 
 	// One supervising goroutine per shard: it starts the shard's worker process and, when the worker stops
 	// at a runaway case, starts it again behind that case with the current quarantine list (no barrier
@@ -1100,7 +1119,12 @@ func replay(run *ev.Run, col *collector, d *ev.ReplayDoc) {
 		run.Violate(viol{Scenario: d.Scenario, Oracle: "bounded-allocation", CaseID: d.CaseID, Detail: d.Detail})
 		run.Finish()
 	}
-	w.limit.Store(limitLarge / 4)
+	if k, _ := d.Detail["kind"].(string); k == "untyped" {
+		w.limit.Store(limitLarge)
+	} else {
+		h, _ := d.Detail["input"].(string)
+		w.limit.Store(uint64(limitSmall + 256*len(h)))
+	}
 	go w.watchdog()
 	w.begin(0, nil, func() (string, string, map[string]interface{}) { return d.Scenario, d.CaseID, d.Detail })
 	a := w.a
@@ -1117,7 +1141,8 @@ func replay(run *ev.Run, col *collector, d *ev.ReplayDoc) {
 			ev.Broken("replay: unknown target %q", name)
 		}
 		_, refErr := refrlp.Decode(in)
-		a.do(func() outcome { return checkTarget(d.Scenario, tg, in, refErr) })
+		stream, _ := d.Detail["stream"].(bool)
+		a.do(func() outcome { return checkTarget(d.Scenario, tg, in, refErr, stream) })
 	case "typed":
 		spec, _ := d.Detail["spec"].(string)
 		tc := parseTypedSpec(spec)
